@@ -37,6 +37,7 @@ type Engine struct {
 	specInfos   map[*VCGen]map[string]*specFnInfo
 	concurrency concurrencyModel
 	implCache   map[string][]types.Type
+	aliasCache  map[string]types.Type
 	workDir     string
 	timeoutS    int
 	verbose     bool
@@ -87,6 +88,27 @@ func (eng *Engine) immNamed(name string, args ...types.Type) types.Type {
 	return t
 }
 
+// evalGoType evaluates a Go type expression in the file scope of some file of the alias's package.
+func (eng *Engine) evalGoType(al SortAlias) types.Type {
+	if t, ok := eng.aliasCache[al.Name]; ok {
+		return t
+	}
+	for _, p := range eng.pkgs {
+		if p.PkgPath != al.Pkg {
+			continue
+		}
+		for _, f := range p.Syntax {
+			tv, err := types.Eval(p.Fset, p.Types, f.End()-1, "(*struct{ x "+al.GoExpr+" })(nil)")
+			if err == nil {
+				t := tv.Type.(*types.Pointer).Elem().(*types.Struct).Field(0).Type()
+				eng.aliasCache[al.Name] = t
+				return t
+			}
+		}
+	}
+	panic(specErr("cannot evaluate Go type " + al.GoExpr + " for sort " + al.Name))
+}
+
 func (eng *Engine) specialSort(t types.Type) (string, bool) { return "", false }
 
 func (eng *Engine) sigOf(fc *FuncContract) *types.Signature {
@@ -113,7 +135,7 @@ func (eng *Engine) ifaceContract(c *ssa.CallCommon) *FuncContract {
 func newEngine(repo, specDir string) *Engine {
 	return &Engine{repo: repo, specDir: specDir, spkgs: map[string]*ssa.Package{}, allFuncs: map[string]*ssa.Function{},
 		ghosts: map[string]*ghostDecl{}, rawAccessors: map[string]rawAcc{}, lenFns: map[string]string{}, immHeaps: map[string]bool{},
-		rawDeclared: map[string]bool{}, implCache: map[string][]types.Type{}, specInfos: map[*VCGen]map[string]*specFnInfo{}, timeoutS: 10}
+		rawDeclared: map[string]bool{}, implCache: map[string][]types.Type{}, aliasCache: map[string]types.Type{}, specInfos: map[*VCGen]map[string]*specFnInfo{}, timeoutS: 10}
 }
 
 // load loads the given module directories (relative to repo) with the verif tag.
@@ -186,6 +208,11 @@ func (eng *Engine) load(dirs []string) error {
 		f := strings.Fields(strings.TrimLeft(l, "("))
 		if len(f) >= 2 && (f[0] == "declare-fun" || f[0] == "define-fun" || f[0] == "declare-const" || f[0] == "define-fun-rec") {
 			eng.rawDeclared[f[1]] = true
+		}
+	}
+	for _, sf := range eng.contracts.SpecFns {
+		if eng.rawDeclared[sf.Name] {
+			sf.Raw = true
 		}
 	}
 	return nil
@@ -281,7 +308,7 @@ func (eng *Engine) verifyFunc(fn *ssa.Function, fc *FuncContract) (res FuncResul
 	g := newVCGen(eng, fn, fc)
 	g.so.special = eng.specialSortFor(g)
 	var lemmaFacts []string
-	var texts []string
+	var texts, textsNoLemma []string
 	func() {
 		defer genMu.Unlock()
 		defer func() {
@@ -300,6 +327,11 @@ func (eng *Engine) verifyFunc(fn *ssa.Function, fc *FuncContract) (res FuncResul
 		lemmaFacts = eng.lemmaFacts(g, fc.Pkg, nil)
 		for _, o := range g.obls {
 			texts = append(texts, eng.queryText(g, o, lemmaFacts))
+			if len(lemmaFacts) > 0 {
+				textsNoLemma = append(textsNoLemma, eng.queryText(g, o, nil))
+			} else {
+				textsNoLemma = append(textsNoLemma, "")
+			}
 		}
 		delete(eng.specInfos, g)
 	}()
@@ -325,7 +357,19 @@ func (eng *Engine) verifyFunc(fn *ssa.Function, fc *FuncContract) (res FuncResul
 		if o.Kind == "cover" {
 			to = 2 // a contradictory precondition is refuted at once; satisfiability of quantified contexts is rarely decided
 		}
-		r := solve(eng.workDir, name, text, to, nil)
+		var r solveResult
+		if textsNoLemma[i] != "" && o.Kind != "cover" {
+			// variant without the quantified lemma facts first (most obligations do not need them, and
+			// they can send the instantiation engines astray); then the full context
+			r = solve(eng.workDir, name+".nolemma", textsNoLemma[i], (to+2)/3, nil)
+			if r.status != "unsat" {
+				r2 := solve(eng.workDir, name, text, to, nil)
+				r2.timeS += r.timeS
+				r = r2
+			}
+		} else {
+			r = solve(eng.workDir, name, text, to, nil)
+		}
 		or := OblResult{Obligation: o, Status: r.status, Backend: r.backend, TimeS: r.timeS, Output: r.output, File: filepath.Join(eng.workDir, sanitizeFile(name)+".smt2")}
 		if o.Kind == "cover" {
 			// must be satisfiable
